@@ -262,7 +262,8 @@ pub const BENIGN_HEADERS: &[(&str, &str)] = &[
     ("Save-Data", "off"), ("Sec-Fetch-Dest", "document"), ("Sec-Fetch-Mode", "navigate"), ("Sec-Fetch-Site", "cross-site"), ("Sec-Fetch-User", "?1"),
     ("Sec-CH-UA", "\"Chromium\";v=\"120\""), ("Sec-CH-UA-Mobile", "?1"), ("Sec-CH-UA-Platform", "\"Android\""), ("Device-Memory", "0.5"), ("Downlink", "0.4"),
     ("ECT", "2g"), ("RTT", "900"), ("Viewport-Width", "320"), ("Width", "320"), ("DPR", "2"), ("Referer", "http://other.example/page"),
-    ("Cookie", "session=abc; theme=dark"), ("Authorization", "Basic dXNlcjpwYXNz"), ("If-None-Match", "\"abc\""), ("If-Modified-Since", "Wed, 21 Oct 2015 07:28:00 GMT"),
+    ("Cookie", "session=abc; theme=dark"), ("Authorization", "Basic dXNlcjpwYXNz"), ("If-None-Match", "\"abc\""), ("If-None-Match", "*"), ("If-Modified-Since", "Wed, 21 Oct 2015 07:28:00 GMT"), ("If-Modified-Since", "Fri, 01 Jan 2038 00:00:00 GMT"),
+    ("If-Modified-Since", "Sun, 13 Sep 2020 12:26:40 GMT"), ("If-Unmodified-Since", "Thu, 01 Jan 1970 00:00:00 GMT"), ("Accept-Encoding", "gzip"), ("Accept-Encoding", "br;q=1.0, gzip;q=0.8, *;q=0.1"), ("Accept-Encoding", "identity"),
     ("If-Match", "*"), ("If-Unmodified-Since", "Wed, 21 Oct 2015 07:28:00 GMT"), ("If-Range", "\"abc\""), ("X-Forwarded-For", "203.0.113.7"), ("X-Forwarded-Proto", "https"),
     ("Forwarded", "for=192.0.2.60;proto=http;by=203.0.113.43"), ("Via", "1.1 proxy.example"), ("TE", "trailers"), ("Expect", "100-continue"), ("Max-Forwards", "0"),
     ("Upgrade", "websocket"), ("X-Requested-With", "XMLHttpRequest"), ("Early-Data", "1"), ("Priority", "u=1, i"), ("Purpose", "prefetch"), ("X-Http-Method-Override", "DELETE"),
@@ -677,7 +678,7 @@ pub fn small_tree(nonce: u64) -> TreeSpec {
     };
     let lit = |name: &str, b: &str| Entry { path: format!("root/{}", name), kind: EntryKind::File(Content::Literal(b.into())) };
     // (a sixth of the nonces give the tree odd modification times: before 1970, at the epoch, after 2038)
-    TreeSpec { root, mtime_mode: if nonce % 6 == 5 { (1 + nonce % 5) as u8 } else { 0 }, entries: vec![f("probe.txt", 0, 64), f("file.txt", 1, 300), f("page.html", 2, 500), f("d/index.html", 3, 200), f("big.bin", 4, 20000), lit("empty.txt", ""), lit("one.txt", "1")] }
+    TreeSpec { root, mtime_mode: if nonce % 6 == 5 { (1 + nonce % 5) as u8 } else { 0 }, entries: vec![f("probe.txt", 0, 64), f("file.txt", 1, 300), f("page.html", 2, 500), f("d/index.html", 3, 200), f("big.bin", 4, 20000), lit("empty.txt", ""), lit("one.txt", "1"), lit("file.txt.gz", "GZ-not really gzip"), lit("page.html.gz", "GZ-not really gzip either"), lit("big.bin.br", "brotli?")] }
 }
 
 pub fn probe_request() -> Vec<u8> {
